@@ -31,6 +31,29 @@ ASSUMPTIONS = ["reference self-tests passed", "both twins start from identically
                "per-type mutable fields are reset at the start of each twin (emulating a fresh process)"]
 
 
+def _same_type_other_params(draw, op):
+    import copy
+
+    o = copy.deepcopy(op)
+    if "useed" in o:
+        o["useed"] = draw(S.seeds)
+    if "params" in o:
+        for k, v in list(o["params"].items()):
+            if isinstance(v, list):
+                o["params"][k] = draw(S.small_c) if o["type"] != "fock:Squeeze" else [0.5 * x for x in draw(S.small_c)]
+            else:
+                o["params"][k] = draw(S.angle)
+    if "factors" in o:
+        for f in o["factors"]:
+            if "useed" in f:
+                f["useed"] = draw(S.seeds)
+            if "phi" in f:
+                f["phi"] = draw(S.angle)
+        if draw(st.booleans()) and len(o["factors"]) >= 2 and o["factors"][0]["kind"] == o["factors"][1]["kind"]:
+            pass
+    return o
+
+
 @st.composite
 def _case(draw):
     spec, layout = draw(S.world_and_layout(min_envs=2, max_envs=3, need_ce=True, fdims=(2, 3, 4), max_joint=300))
@@ -44,6 +67,13 @@ def _case(draw):
         kind = base_kind if base_kind != "mixed" else draw(st.sampled_from(["fock", "pol", "comp"]))
         if kind == "custom" and not any(info.kind[s] == "custom" for s in info.subs):
             kind = "pol"
+        # the interesting interference is between operations of the SAME type: often clone the first
+        # slot's type with other parameters
+        if slots and draw(st.integers(0, 2)) > 0:
+            first = slots[0]
+            op2 = _same_type_other_params(draw, first["op"])
+            slots.append(dict(op=op2, default_targets=first["default_targets"], dims=first["dims"]))
+            continue
         cs = S.comp_op(info, mem) if kind == "comp" else None
         if kind == "comp" and cs is None:
             kind = "pol"
